@@ -1,0 +1,30 @@
+//go:build verif
+
+// Verification contracts for the iceberg processor's segment decoder (comment-only; read by /verif/govc).
+// This file contains no executable code.
+// brPos/brLen: ghost view of a *bytes.Reader (bytes consumed / total bytes).
+
+package decoder
+
+//@ func readVarint
+//@   ensures [C34.varint_consumes] brLen(reader) == old(brLen(reader)) && brPos(reader) >= old(brPos(reader)) && brPos(reader) <= brLen(reader)
+//@   loop 1 invariant brLen(reader) == old(brLen(reader)) && brPos(reader) >= old(brPos(reader)) && brPos(reader) <= brLen(reader) && shift <= 63
+//@ func readNullableBytes
+//@   alloc_bound brLen(reader)
+//@   ensures [C34.bytes_consumes] brLen(reader) == old(brLen(reader)) && brPos(reader) >= old(brPos(reader)) && brPos(reader) <= brLen(reader)
+//@   ensures [C34.bytes_len] err == nil && length >= 0 ==> int64(len(result0)) == length
+//@ func decodeRecord
+//@   alloc_bound brLen(reader)
+//@   ensures [C34.record_consumes] brLen(reader) == old(brLen(reader)) && brPos(reader) >= old(brPos(reader)) && brPos(reader) <= brLen(reader)
+//@   loop 1 invariant brLen(buf) == int(length) && brPos(buf) <= brLen(buf) && 0 <= i && i <= headerCount && len(headers) <= int(i) && headerCount <= length
+//@ func decodeBatchRecords
+//@   alloc_bound len(batch)
+//@   loop 1 invariant brLen(reader) == len(batch) - 61 && brPos(reader) <= brLen(reader) && 0 <= i && i <= recordCount && len(records) <= int(i) && int(recordCount) <= len(batch) - 61
+//@ func decodeRecordBatches
+//@   alloc_bound len(data)
+//@   loop 1 invariant 0 <= offset && offset <= len(data)
+//@ func decodeSegment
+//@   alloc_bound len(segment)
+//@ func parseIndex
+//@   alloc_bound len(data)
+//@   loop 1 invariant 0 <= i && i <= count && len(entries) == int(count)
